@@ -1580,7 +1580,11 @@ fn distinct_tokens_case(ctx: &mut Ctx, alg: Algorithm, req: &str, old: &str, new
     }));
     ctx.count("text.many_distinct_tokens_cases");
     match r {
-        Err(_) => ctx.violation("C14", req, "text diff over more than 65536 distinct tokens panicked".to_string()),
+        Err(_) => {
+            ctx.violation("C14", req, "text diff over more than 65536 distinct tokens panicked".to_string());
+            ctx.violation("C04", req, "text diff over more than 65536 distinct tokens panicked: no changes to reconstruct the texts from".to_string());
+            ctx.violation("C02", req, "text diff over more than 65536 distinct tokens panicked: no op list".to_string());
+        }
         Ok((ops, direct, bad_equal)) => {
             if bad_equal {
                 ctx.violation("C14", req, "an Equal op covers tokens that are not equal (two items got one number)".to_string());
@@ -2666,6 +2670,12 @@ fn udiff_case(ctx: &mut Ctx, c: &UCfg, mode: Mode, old: &[u8], new: &[u8]) -> St
         ctx.violation("C05", &req, "rendering panicked".to_string());
         return ans;
     }
+    // a LINE diff is newline-terminated unless the caller said otherwise, whatever the texts look like (also two one-line
+    // texts without any terminator): otherwise the renderer appends a newline to every line and never marks a missing one
+    let want_nlt = c.nlt.unwrap_or(true);
+    if r.nlt != want_nlt {
+        ctx.violation("C05", &req, format!("newline_terminated() of the line diff is {} (configured: {:?}): the rendered patch cannot mark lines that lack a final newline", r.nlt, c.nlt));
+    }
     if !(c.hint && r.nlt) {
         ctx.count("udiff.unchecked_variants");
         return ans;
@@ -3642,6 +3652,30 @@ fn remap_case(ctx: &mut Ctx, kind: Kind, alg: Algorithm, mode: Mode, old: &[u8],
     }
     if ev.slices_via_new != ev.slices {
         ctx.violation("C17", &req, "TextDiffRemapper::new(old_slices, new_slices, old, new) remaps differently from from_text_diff".to_string());
+    }
+    // the same texts as a CHARACTER-INDEXED user-defined type (suites/custom_str.rs: `len` / `slice` count characters): same
+    // tokens, same ops, and every remapped slice must be the same piece of text as for `str`
+    if mode == Mode::Str && (!old.is_ascii() || !new.is_ascii()) {
+        use super::custom_str::UStr;
+        ctx.count("remap.char_indexed_type_runs");
+        match remap_eval::<UStr>(kind, alg, UStr::new(as_str(old)), UStr::new(as_str(new))) {
+            None => ctx.violation("C17", &req, "building the text diff over a character-indexed user-defined DiffableStr type panicked".to_string()),
+            Some(eu) => {
+                if eu.ops != ev.ops {
+                    ctx.violation("C17", &req, "a character-indexed user-defined DiffableStr type over the same text gives other ops".to_string());
+                } else if eu.slices != ev.slices || eu.slices_via_new != ev.slices {
+                    ctx.violation(
+                        "C17",
+                        &req,
+                        format!(
+                            "over a character-indexed user-defined DiffableStr type (len / slice count characters, as_bytes is the UTF-8 text) the remapped slices differ from those over str: {} (from_text_diff) / {} (new)",
+                            remap_answer(&eu.slices),
+                            remap_answer(&eu.slices_via_new)
+                        ),
+                    );
+                }
+            }
+        }
     }
     match mode {
         Mode::Str => helper_case::<str>(ctx, kind, alg, mode, as_str(old), as_str(new)),
